@@ -264,9 +264,11 @@ def field_part(name, a, b):
             if x != y:
                 bad.add(cols[k])
     if bad == {"metadata"}:
-        return name[:-1] + "_metadata_lost" if all(
-            ra[-1] == b"" for ra, rb in zip(a, b) if ra != rb) else name[:-1] + "_metadata"
-    return name + "_" + "+".join(sorted(bad))
+        lost = all(ra[-1] == b"" for ra, rb in zip(a, b) if ra != rb)
+        return name[:-1] + ("_metadata_lost" if lost else "_metadata")
+    if len(bad) == 1:
+        return name + "_" + bad.pop()
+    return name
 
 
 def report(acc, prefix, got, exp, case, skip=()):
@@ -772,8 +774,8 @@ def genotypes(M):
             for j in range(len(M["sites"]))]
 
 
-def simplified(ts):
-    t = ts.dump_tables()
+def simplified(t):
+    """Model of simplify() of the TableCollection t (consumed), edge rows sorted."""
     t.edges.drop_metadata()
     t.simplify(record_provenance=False)
     M = snap(t)
@@ -794,7 +796,7 @@ def detached_mutations(Min, Mout):
             pout = R.parent_map(Mout["edges"], N, x)
             if pout[u] != NULL or u in pout:
                 out.append(j)
-    return out
+    return sorted(out)
 
 
 def run_ext(m, var, acc):
@@ -836,12 +838,11 @@ def run_ext(m, var, acc):
         acc.ev(1, has and changed)
         if changed:
             acc.count("ext_changed")
-        det = detached_mutations(Min, got)
-        sfx = "_mutation_on_detached_node" if det else ""
         # only the edge table and the mutation node column may differ
         exp = R.clone(Min)
         exp["edges"] = got["edges"]
-        if len(got["mutations"]) == len(Min["mutations"]):
+        same_muts = len(got["mutations"]) == len(Min["mutations"])
+        if same_muts:
             exp["mutations"] = [r[:1] + (g[1],) + r[2:] for r, g in zip(Min["mutations"], got["mutations"])]
         report(acc, "extend_haplotypes:other_tables", got, exp, case)
         if not changed and got["mutations"] == Min["mutations"]:
@@ -853,25 +854,42 @@ def run_ext(m, var, acc):
         for x in pts:
             for p in R.extend_position_problems(Min, got, x):
                 acc.fail("extend_haplotypes:tree_changed", p, case)
-        if len(got["mutations"]) == len(Min["mutations"]):
-            for j in range(len(Min["mutations"])):
-                if not R.extend_mutation_node_ok(Min, got, j):
-                    acc.fail("extend_haplotypes:mutation_node",
-                             f"mutation {j} {Min['mutations'][j]} moved to node {got['mutations'][j][1]}",
-                             case)
+        if not same_muts:
+            continue
+        for j in range(len(Min["mutations"])):
+            if not R.extend_mutation_node_ok(Min, got, j):
+                acc.fail("extend_haplotypes:mutation_node",
+                         f"mutation {j} {Min['mutations'][j]} moved to node {got['mutations'][j][1]}",
+                         case)
+        # sample genotypes and the simplified tree sequence (up to edge order) are identical;
+        # simplify() refuses edge metadata, which is dropped on both sides first
+        try:
             gout = genotypes(got)
+            if sin is None:
+                sin = simplified(ts.dump_tables())
+            sout = simplified(ts2.dump_tables())
+            if gout == gin and sout == sin:
+                continue
+            # Are the differences entirely due to mutations that sit on a node outside the
+            # input tree at their site, which the extension pulled into the tree?  Decide by
+            # repeating both comparisons without those mutation rows.
+            det = detached_mutations(Min, got)
+            sfx = ""
+            if det:
+                t_in, t_out = ts.dump_tables(), ts2.dump_tables()
+                keep = [j not in det for j in range(len(Min["mutations"]))]
+                t_in.mutations.keep_rows(keep)
+                t_out.mutations.keep_rows(keep)
+                if genotypes(snap(t_in)) == genotypes(snap(t_out)) and simplified(t_in) == simplified(t_out):
+                    sfx = "_mutation_on_detached_node"
+            note = (f"; mutations {det} sit on nodes that are not in the input tree at their site "
+                    "and that the extension inserted into the tree there") if sfx else ""
             if gout != gin:
                 acc.fail("extend_haplotypes:genotypes" + sfx,
-                         f"sample genotypes {gout} expected {gin}" + (
-                             f"; mutations {det} sit on nodes outside the input tree at their site "
-                             "which the extension pulled into the tree" if det else ""), case)
-        # simplified tree sequence identical (up to edge order); simplify() refuses edge
-        # metadata, which is dropped on both sides first
-        try:
-            if sin is None:
-                sin = simplified(ts)
-            sout = simplified(ts2)
-            report(acc, "extend_haplotypes:simplified" + sfx, sout, sin, case)
+                         f"sample genotypes {gout} expected {gin}" + note, case)
+            for part, msg in diff_models(sout, sin):
+                acc.fail(f"extend_haplotypes:simplified{sfx}", msg + note, case)
+                break
         except Exception as e:  # noqa
             acc.fail("extend_haplotypes:simplify_raised", f"raised {e!r}", case)
     acc.sample({"fam": "ext", "member": m.desc(), "var": var})
